@@ -415,6 +415,40 @@ func runC03(c *eng.Ctx) {
 	// ---- block footer ------------------------------------------------------------------------------------------------------------------------
 	c.Rule("LAYOUT", "tsdb/tblstore/metricsdata{block footer}", func() { blockFooter(c) })
 
+	// ---- pooled down-sampling buffer --------------------------------------------------------------------------------------------------------
+	c.Rule("RESET", "aggregation.DownSamplingMultiSeriesInto{pooled target buffer}", func() {
+		f := c.Fn("aggregation.DownSamplingMultiSeriesInto")
+		fill := c.One(f, eng.CallTo("aggregation.fillInfBlock"), "fillInfBlock(targetValues)")
+		n := 0
+		for _, b := range f.Blocks {
+			for _, in := range b.Instrs {
+				ia, ok := in.(*ssa.IndexAddr)
+				if !ok || !strings.Contains(ia.X.Type().String(), "float64") {
+					continue
+				}
+				n++
+				c.Check(eng.DominatedBy(f, in, []eng.Site{fill}, nil), fmt.Sprintf("filled-before-use[%d]", n), in, f,
+					"the (possibly pooled) target buffer is filled with the empty sentinel before any slot is read or written (a stale value would be aggregated into the result)", "")
+			}
+		}
+		if n < 2 {
+			c.Undecided("no slot accesses found in DownSamplingMultiSeriesInto")
+		}
+		g := c.Fn("aggregation.getFloat64Slice")
+		for i, r := range eng.SuccessReturns(g) {
+			v := eng.Unwrap(eng.RetVal(r, 0))
+			okLen := false
+			switch x := v.(type) {
+			case *ssa.MakeSlice:
+				okLen = p.Desc(x.Len) == "size"
+			case *ssa.Slice:
+				okLen = x.High != nil && p.Desc(x.High) == "size" && x.Low == nil
+			}
+			c.Check(okLen, fmt.Sprintf("sized[%d]", i), r, g, "a pooled slice is handed out with exactly the requested length", "returns "+p.Desc(v))
+		}
+		owner(c, "call of aggregation.getFloat64Slice", eng.AnyCallTo("aggregation.getFloat64Slice"), []string{"aggregation.DownSamplingMultiSeriesInto"}, 1)
+	})
+
 	// ---- field-type tables ---------------------------------------------------------------------------------------------------------------------
 	c.Rule("EXHAUSTIVE", "series/field{type tables}", func() { fieldTypeTables(c) })
 }
